@@ -171,3 +171,144 @@ def fmt_args(levels):
 
 def fmt_cnames(levels):
     return [e for lvl in levels for e in lvl if e["k"] == "c"]
+
+
+# ---------------------------------------------------------------- formats drawn from rng (the quantifier of C01/C02/C05)
+# 0-5 options over value mode x type x nullable x short-name presence x default kind (none / truthy / falsy / a value of
+# another type), 0-4 arguments (required / optional / multi-valued, typed, nullable, with defaults), 0-2 command names with
+# 0-2 aliases each, 0-2 base levels.  SMALL_FORMATS above stays as it is (corpus cases and C03/C09 refer to it by index);
+# cases over a generated format carry the description itself ("lv").
+OPT_NAMES = ["verbose", "quiet", "opt", "num", "flt", "bool", "nul", "may", "mul", "force", "all", "dry-run", "level", "tag", "out", "yes"]
+ARG_NAMES = ["a1", "a2", "a3", "a4", "src", "dst", "cmd11", "cmd12", "cmd21", "cmd22"]
+CN_POOL = [("server", ["srv", "s"]), ("add", ["a", "new"]), ("remote", ["r", "rem"]), ("list", ["ls", "l"])]
+O_TYPE = {"str": O_STR, "bool": O_BOOL, "int": O_INT, "float": O_FLOAT}
+A_TYPE = {"str": A_STR, "bool": A_BOOL, "int": A_INT, "float": A_FLOAT}
+TRUTHY = {"str": "dflt", "int": 7, "float": 1.5, "bool": True}
+FALSY = {"str": "", "int": 0, "float": 0.0, "bool": False}
+# a default of another Python type than the declared one (the converter sees it when an optional value is omitted)
+CROSS = {"str": [3, True], "int": ["7", True], "float": [2, "2.5"], "bool": [1, 0, "yes"]}
+
+
+def rand_default(rng, mode, typ):
+    if mode == "flag":
+        return None
+    if mode == "multi":
+        return rng.choice([None, None, [], [TRUTHY[typ]], [FALSY[typ], TRUTHY[typ]]])
+    pool = [None, TRUTHY[typ], FALSY[typ], FALSY[typ]]
+    if mode == "opt":
+        pool = pool + [rng.choice(CROSS[typ])]
+    return rng.choice(pool)
+
+
+def rand_opt(rng, long, short, mode=None):
+    if mode is None:
+        mode = rng.choice(["flag", "flag", "req", "req", "opt", "opt", "multi"])
+    typ = rng.choice(["str", "str", "int", "float", "bool"])
+    flags = {"flag": rng.choice([NO_VALUE, NO_VALUE, 0]), "req": rng.choice([REQ_V, REQ_V, REQ_V, REQ_V | OPT_V]), "opt": OPT_V,
+             "multi": rng.choice([MULTI_V, MULTI_V | REQ_V])}[mode]
+    if mode == "flag" and rng.random() < 0.75:
+        typ = "str"
+    flags |= 0 if (typ == "str" and rng.random() < 0.5) else O_TYPE[typ]
+    if rng.random() < (0.15 if mode == "flag" else 0.3):
+        flags |= O_NULL
+    if rng.random() < 0.15:
+        flags |= (2 if short and rng.random() < 0.5 else 1)          # PREFER_SHORT_NAME / PREFER_LONG_NAME
+    return opt(long, short, flags, rand_default(rng, mode, typ))
+
+
+def rand_arg(rng, name, kind):
+    """kind: req | opt | multi | reqmulti"""
+    typ = rng.choice(["str", "str", "int", "float", "bool"])
+    flags = {"req": A_REQ, "opt": rng.choice([A_OPT, A_OPT, 0]), "multi": rng.choice([A_MULTI, A_MULTI | A_OPT]), "reqmulti": A_MULTI | A_REQ}[kind]
+    flags |= 0 if (typ == "str" and rng.random() < 0.5) else A_TYPE[typ]
+    if rng.random() < 0.3:
+        flags |= A_NULL
+    default = None
+    if kind == "opt":
+        default = rng.choice([None, TRUTHY[typ], FALSY[typ], FALSY[typ]])
+    elif kind == "multi":
+        default = rng.choice([None, [], [TRUTHY[typ]], [FALSY[typ], TRUTHY[typ]]])
+    return arg(name, flags, default)
+
+
+def rand_levels(rng, nopts=None, nargs=None, ncn=None, nbase=None, short_flags=0, short_valued=0):
+    """a valid format description (innermost base first).  short_flags / short_valued: at least that many flags / valued
+    options with a short name (so that groups '-abc', '-abcoVAL' can be written)"""
+    nopts = rng.randint(0, 5) if nopts is None else nopts
+    nopts = max(nopts, short_flags + short_valued)
+    nargs = rng.randint(0, 4) if nargs is None else nargs
+    ncn = rng.choice([0, 0, 1, 1, 2]) if ncn is None else ncn
+    nbase = rng.choice([0, 0, 0, 1, 1, 2]) if nbase is None else nbase
+    longs = rng.sample(OPT_NAMES, nopts)
+    letters = list("abcdefghijklmnopqrstuvwxyzVQN")
+    used = set()
+    opts = []
+    for i, ln in enumerate(longs):
+        forced = i < short_flags + short_valued
+        mode = "flag" if i < short_flags else (rng.choice(["req", "req", "opt", "multi"]) if i < short_flags + short_valued else None)
+        short = None
+        if forced or rng.random() < 0.65:
+            short = ln[0] if ln[0] not in used and rng.random() < 0.8 else rng.choice([c for c in letters if c not in used])
+            used.add(short)
+        opts.append(rand_opt(rng, ln, short, mode))
+    rng.shuffle(opts)
+    # arguments: required ones, then optional ones, then possibly a multi-valued one
+    names = rng.sample(ARG_NAMES[:6], nargs) if rng.random() < 0.85 else rng.sample(ARG_NAMES, nargs)
+    has_multi = nargs > 0 and rng.random() < 0.45
+    m = nargs - (1 if has_multi else 0)
+    k_req = rng.randint(0, m)
+    kinds = ["req"] * k_req + ["opt"] * (m - k_req)
+    if has_multi:
+        kinds.append("reqmulti" if k_req == m and rng.random() < 0.4 else "multi")
+    args = [rand_arg(rng, n, k) for n, k in zip(names, kinds)]
+    # command names: 0-2 aliases each; with a base level the derived format may repeat a command name of the base (the
+    # builder accepts that - option and argument names of a base can not be repeated, the builder rejects it)
+    cns = []
+    for nm, als in rng.sample(CN_POOL, ncn):
+        cns.append(cname(nm, als[:rng.choice([0, 1, 1, 2])]))
+    if ncn == 2 and nbase > 0 and rng.random() < 0.15:
+        cns[1] = cname(cns[0]["name"], [a + "x" for a in cns[0]["aliases"]] or ["again"])
+    # distribute over the levels: command names and arguments are cut in order (base first), options go anywhere
+    nl = nbase + 1
+    def cuts(n):
+        c = sorted(rng.randint(0, n) for _ in range(nbase))
+        return [0] + c + [n]
+    cc, ca = cuts(len(cns)), cuts(len(args))
+    if nbase and cns and cc[1] == 0 and rng.random() < 0.6:
+        cc[1] = 1                                                  # usually the base holds the first command name
+        cc = sorted(cc)
+    where = [rng.randrange(nl) for _ in opts]
+    levels = []
+    for li in range(nl):
+        levels.append(cns[cc[li]:cc[li + 1]] + [o for o, w in zip(opts, where) if w == li] + args[ca[li]:ca[li + 1]])
+    return levels
+
+
+def fmt_shape(levels):
+    """short text for describe()"""
+    def one(e):
+        if e["k"] == "o":
+            return "--%s%s:%d%s" % (e["long"], "/-" + e["short"] if e["short"] else "", e["flags"], "" if e["default"] is None else "=%r" % (e["default"],))
+        if e["k"] == "a":
+            return "%s:%d%s" % (e["name"], e["flags"], "" if e["default"] is None else "=%r" % (e["default"],))
+        if e["k"] == "c":
+            return "%s%s" % (e["name"], "|" + "|".join(e["aliases"]) if e["aliases"] else "")
+        return "co:" + e["long"]
+    return " < ".join("[" + " ".join(one(e) for e in lvl) + "]" for lvl in levels)
+
+
+_FMT_BY_INDEX = {}
+
+
+def case_format(c):
+    """the ArgsFormat of a C01/C02 case (cached)"""
+    if "lv" in c:
+        return mk_format(c["lv"])
+    if c["f"] not in _FMT_BY_INDEX:
+        _FMT_BY_INDEX[c["f"]] = mk_format(SMALL_FORMATS[c["f"]])
+    return _FMT_BY_INDEX[c["f"]]
+
+
+def case_levels(c):
+    """the format description of a C01/C02 case: carried by the case ("lv") or an index into SMALL_FORMATS ("f")"""
+    return c["lv"] if "lv" in c else SMALL_FORMATS[c["f"]]
